@@ -4,6 +4,9 @@
 EXTENDS Calendar, TLC
 CONSTANTS FirstDay, LastDay
 VARIABLE n
+\* MC_Calendar_400.cfg: one full 400-year Gregorian cycle 1900-01-01 .. 2300-01-01 (146 097 days): the civil-date algorithm
+\* is periodic in eras of 400 years, so the lemmas then hold for every day
+FirstDay400 == -25567
 \* one initial state per day (a wide, shallow state space: TLC's per-level cost makes a
 \* 47k-deep chain 20x slower than 47k initial states)
 Init == n \in FirstDay..LastDay
